@@ -300,6 +300,10 @@ def _case_op(spne, op, dim, dxs, mode):
                 "tie": np.where(idx % 2 == 0, 2, -2),
                 # a single tie face inside an otherwise one-signed flow
                 "one-tie": np.where(idx == n // 2, -1, np.where(idx == n // 2 + 1, 1, np.where(idx < n // 2, 1, 2))),
+                # opposite signs across ONE face with |u_own| / |u_neighbour| = 3/2 (twice the values: 6, 3, -2, -6): the
+                # face sum keeps the sign of the larger one although half of it would not
+                "ratio+": np.where(idx < n // 2, 6, np.where(idx == n // 2, 3, np.where(idx == n // 2 + 1, -2, -6))),
+                "ratio-": np.where(idx < n // 2, -6, np.where(idx == n // 2, -3, np.where(idx == n // 2 + 1, 2, 6))),
             }
             for pname, u1 in pats.items():
                 bshape = [1] * dim
@@ -372,6 +376,6 @@ def run(r) -> None:
     fcases = [dict(op=op, dim=dim, dxs=d, mode=m) for dim in (2, 3) for op in OPS[dim] for d in ("3/7", "3/10") for m in FLOAT_MODES]
     r.run_cases("operators-floating-point", "op", fcases)
     r.bounds = {"monomials": "all x^a y^b z^c with a+b+c <= 2 (<= 3 for Laplacians, per-variable <= 3 for filters, ENO3: degree <= 3 along the axis)",
-                "grids": SHAPES, "spacings": dxs, "eno3_velocity_patterns": ["++", "--", "mixA", "mixB", "alt", "tie", "one-tie"], "arithmetic": "exact (Fractions); floating-point replays " + ", ".join(FLOAT_MODES) + " on spacings 3/7, 3/10 with tolerance 64 eps (1 + max|input|)^2 (1 + |scalar|)"}
+                "grids": SHAPES, "spacings": dxs, "eno3_velocity_patterns": ["++", "--", "mixA", "mixB", "alt", "tie", "one-tie", "ratio+", "ratio-"], "arithmetic": "exact (Fractions); floating-point replays " + ", ".join(FLOAT_MODES) + " on spacings 3/7, 3/10 with tolerance 64 eps (1 + max|input|)^2 (1 + |scalar|)"}
     r.extra["rule"] = "one state per (operator variant, monomial, interior cell) compared with == against the analytic derivative"
     r.assumptions = ["kernels executed by the interpreter in exact mode on the captured assignment collections (float literals rationalised to within 1 ulp)"]
